@@ -76,3 +76,10 @@ pub assume_specification<T>[ <[T]>::split_last ](s: &[T]) -> (r: Option<(&T, &[T
     };
 pub assume_specification<T>[ core::mem::replace ](dest: &mut T, src: T) -> (r: T)
     ensures r == *old(dest), *final(dest) == src;
+
+// ---- comparing a byte slice with a Vec (std: `impl PartialEq<Vec<U>> for &[T]` compares element-wise) ----
+pub uninterp spec fn spec_seq_eq<T, U>(a: Seq<T>, b: Seq<U>) -> bool;
+pub axiom fn axiom_seq_eq_u8()
+    ensures forall|a: Seq<u8>, b: Seq<u8>| #[trigger] spec_seq_eq::<u8, u8>(a, b) == (a == b);
+pub assume_specification<'a, T: PartialEq<U>, U, A: core::alloc::Allocator>[ <&'a [T] as PartialEq<Vec<U, A>>>::eq ](a: &&'a [T], b: &Vec<U, A>) -> (r: bool)
+    ensures r == spec_seq_eq::<T, U>((*a)@, b@);
